@@ -182,3 +182,653 @@ theorem constGraphFrom_spec : ∀ (l : List (String × Ex)) (g : GBuild),
           · exact Or.inr ⟨p, List.mem_cons_self, Or.inr ((mem_dedupS _ _).mp h2)⟩
         · exact Or.inr ⟨p, List.mem_cons_self, Or.inl h1⟩
       · exact Or.inr ⟨q, List.mem_cons_of_mem _ hq, h⟩
+
+theorem panicDiag_not_np : ¬ NoPanic panicDiag := by
+  intro h
+  exact h ⟨.InternalPanic, []⟩ (by simp [panicDiag]) rfl
+
+theorem resolveLoop_np (fl : Flags) (exprs : AMap Ex) (hwf : ∀ p ∈ exprs, wfEx p.2 = true) :
+    ∀ (names : List String) (res : AMap WireValue) (errs : List Diag),
+      (∀ n ∈ names, (exprs.get? n).isSome = true) → ConstOK res → NoPanic errs →
+      NoPanic (resolveLoop fl exprs names res errs).2
+  | [], _, _, _, _, he => he
+  | name :: rest, res, errs, hn, hc, he => by
+    unfold resolveLoop
+    cases hg : exprs.get? name with
+    | none =>
+      have := hn name List.mem_cons_self
+      rw [hg] at this; simp at this
+    | some e =>
+      simp only
+      have hrest : ∀ n ∈ rest, (exprs.get? n).isSome = true := fun n h => hn n (List.mem_cons_of_mem _ h)
+      obtain ⟨c1, c2⟩ := constCtx_ok res hc
+      have hwfe := hwf (name, e) (AMap.mem_of_get? _ _ _ hg)
+      cases hcf : checkFixEval fl (AMap.toCtx (res.map (fun p => (p.1, p.2.width)))) res.toEnv e with
+      | error ds =>
+        exact resolveLoop_np fl exprs hwf rest res _ hrest hc
+          (noPanic_append he (checkFixEval_np fl _ _ e ds c1 (c2 _) hwfe hcf))
+      | ok v =>
+        exact resolveLoop_np fl exprs hwf rest _ _ hrest
+          (constOK_insert res name v hc (checkFixEval_ok fl _ _ e v c1 (c2 _) hwfe hcf)) he
+
+/-- when the loop records no error, every name it was given has a value afterwards -/
+theorem resolveLoop_all (fl : Flags) (exprs : AMap Ex) : ∀ (names : List String) (res : AMap WireValue) (errs : List Diag),
+    (resolveLoop fl exprs names res errs).2 = [] →
+    errs = [] ∧ (∀ n, res.contains n = true → (resolveLoop fl exprs names res errs).1.contains n = true) ∧
+      ∀ n ∈ names, (resolveLoop fl exprs names res errs).1.contains n = true
+  | [], res, errs, h => ⟨h, fun _ hn => hn, by simp⟩
+  | name :: rest, res, errs, h => by
+    unfold resolveLoop at h ⊢
+    cases hg : exprs.get? name with
+    | none =>
+      rw [hg] at h
+      simp only [List.append_eq_nil_iff] at h
+      exact absurd h.2 (by simp [panicDiag])
+    | some e =>
+      rw [hg] at h
+      simp only at h ⊢
+      cases hcf : checkFixEval fl (AMap.toCtx (res.map (fun p => (p.1, p.2.width)))) res.toEnv e with
+      | error ds =>
+        rw [hcf] at h
+        simp only at h
+        obtain ⟨h1, _, _⟩ := resolveLoop_all fl exprs rest res _ h
+        rw [List.append_eq_nil_iff] at h1
+        exact absurd h1.2 (checkFixEval_err fl _ _ _ _ hcf)
+      | ok v =>
+        rw [hcf] at h
+        simp only at h ⊢
+        obtain ⟨h1, h2, h3⟩ := resolveLoop_all fl exprs rest (res.insert name v) errs h
+        refine ⟨h1, fun n hn => h2 n (by rw [AMap.contains_insert]; simp [hn]), ?_⟩
+        intro n hn
+        rcases List.mem_cons.mp hn with e1 | e1
+        · subst e1; exact h2 _ (by rw [AMap.contains_insert]; simp)
+        · exact h3 n e1
+
+/-- **step 2 never reports an internal error** (and, when it succeeds, every constant has a value) -/
+theorem resolveConstants_np (fl : Flags) (o : Orders) (exprs : AMap Ex) (ho : OrdersOK o)
+    (hk : exprs.keys.Nodup) (hwf : ∀ p ∈ exprs, wfEx p.2 = true)
+    (hrefs : ∀ p ∈ exprs, ∀ r ∈ refs p.2, exprs.contains r = true) :
+    (∀ ds, resolveConstants fl o exprs = .error ds → NoPanic ds) ∧
+    (∀ c, resolveConstants fl o exprs = .ok c → ∀ k ∈ exprs.keys, c.contains k = true) := by
+  obtain ⟨gwf, gkeys, gupper⟩ := constGraphFrom_spec exprs {} GBuild.wf_empty hk (by intro p _ e he; simp at he)
+  rw [← constGraph_eq] at gwf gkeys gupper
+  have hnodes : ∀ n ∈ (constGraph exprs).nodes, (exprs.get? n).isSome = true := by
+    intro n hn
+    rw [AMap.get?_isSome_iff_contains]
+    rcases gupper n hn with h | ⟨p, hp, h | h⟩
+    · simp at h
+    · rw [h]; exact (AMap.contains_iff_mem_keys _ _).mpr (List.mem_map.mpr ⟨p, hp, rfl⟩)
+    · exact hrefs p hp n h
+  unfold resolveConstants
+  rcases (constGraph exprs).sort_spec o gwf ho with ⟨order, hso, _, hcover, _⟩ | ⟨c, hsc, _⟩
+  · rw [hso]
+    simp only
+    have hnames : ∀ n ∈ order, (exprs.get? n).isSome = true := fun n hn => hnodes n ((hcover n).mp hn)
+    constructor
+    · intro ds h
+      split at h
+      · simp at h
+      · simp only [Except.error.injEq] at h
+        rw [← h]
+        exact resolveLoop_np fl exprs hwf order [] [] hnames (by intro k v hv; simp [AMap.get?] at hv) noPanic_nil
+    · intro c h k hk'
+      split at h
+      · rename_i herr
+        simp only [Except.ok.injEq] at h
+        have hnil : (resolveLoop fl exprs order [] []).2 = [] := by simpa using herr
+        obtain ⟨_, _, h3⟩ := resolveLoop_all fl exprs order [] [] hnil
+        rw [← h]
+        obtain ⟨p, hp, rfl⟩ := List.mem_map.mp hk'
+        exact h3 p.1 ((hcover p.1).mpr (gkeys p hp))
+      · simp at h
+  · rw [hsc]
+    constructor
+    · intro ds h
+      simp only [Except.error.injEq] at h
+      rw [← h]
+      intro d hd; simp at hd; subst hd; simp
+    · intro c h; simp at h
+
+/-! ### step 3: register banks -/
+
+theorem noPanic_of_kind (l : List Diag) (h : ∀ d ∈ l, d.kind ≠ .InternalPanic) : NoPanic l := h
+
+theorem noPanic_replicate (n : Nat) (d : Diag) (h : d.kind ≠ .InternalPanic) : NoPanic (List.replicate n d) := by
+  intro x hx
+  rw [List.mem_replicate] at hx
+  rw [hx.2]; exact h
+
+theorem noPanic_flatMap {α : Type} (l : List α) (f : α → List Diag) (h : ∀ a ∈ l, NoPanic (f a)) : NoPanic (l.flatMap f) := by
+  intro d hd
+  obtain ⟨a, ha, hda⟩ := List.mem_flatMap.mp hd
+  exact h a ha d hda
+
+theorem noPanic_ite (c : Prop) [Decidable c] (a b : List Diag) (ha : NoPanic a) (hb : NoPanic b) : NoPanic (if c then a else b) := by
+  split <;> assumption
+
+theorem noPanic_single (d : Diag) (h : d.kind ≠ .InternalPanic) : NoPanic [d] := by
+  intro x hx; simp at hx; subst hx; exact h
+
+section
+variable (fl : Flags) (cls : CharClass) (s1 : Step1) (constants : AMap WireValue)
+
+theorem regPre_np (bank inName outName : String) (acc : BankAcc) (seen : List String) (r : RegDecl) :
+    NoPanic (regPre s1 constants bank inName outName acc seen r).1 := by
+  unfold regPre
+  dsimp only
+  repeat' (first
+    | apply noPanic_append
+    | apply noPanic_ite
+    | (apply noPanic_flatMap; intro _ _)
+    | exact noPanic_nil
+    | exact noPanic_single _ (by simp)
+    | exact noPanic_replicate _ _ (by simp))
+
+theorem regEval_np (bank inName outName : String) (s : Step3) (acc : BankAcc) (r : RegDecl)
+    (hc : ConstOK constants) (hr : r.width.ok ∧ wfEx r.default = true) (hs : NoPanic s.errors) :
+    NoPanic (regEval fl constants bank inName outName s acc r).1.errors := by
+  unfold regEval
+  simp only
+  obtain ⟨c1, c2⟩ := constCtx_ok constants hc
+  cases hcf : checkFixEval fl (AMap.toCtx (constants.map (fun p => (p.1, p.2.width)))) constants.toEnv r.default with
+  | error ds =>
+    simp only
+    exact noPanic_append hs (checkFixEval_np fl _ _ _ ds c1 (c2 _) hr.2 hcf)
+  | ok value =>
+    simp only
+    rw [asWidth_ok value r.width hr.1]
+    simp only
+    apply noPanic_append hs
+    split
+    · exact noPanic_nil
+    · exact noPanic_single _ (by simp)
+
+theorem step3Register_np (bank : String) (inP outP : Char) (st : Step3 × BankAcc) (r : RegDecl)
+    (hc : ConstOK constants) (hr : r.width.ok ∧ wfEx r.default = true) (hs : NoPanic st.1.errors) :
+    NoPanic (step3Register fl s1 constants bank inP outP st r).1.errors := by
+  obtain ⟨s, acc⟩ := st
+  unfold step3Register
+  simp only
+  split
+  · exact noPanic_append hs (regPre_np s1 constants _ _ _ _ _ _)
+  · apply regEval_np fl constants _ _ _ _ acc r hc hr
+    exact noPanic_append hs (regPre_np s1 constants _ _ _ _ _ _)
+
+theorem step3Bank_np (s : Step3) (b : BankDecl) (hc : ConstOK constants)
+    (hb : ∀ r ∈ b.regs, r.width.ok ∧ wfEx r.default = true) (hs : NoPanic s.errors) :
+    NoPanic (step3Bank fl cls s1 constants s b).errors := by
+  unfold step3Bank
+  split
+  · rename_i inP outP _
+    split
+    · exact noPanic_append hs (noPanic_single _ (by simp))
+    · simp only
+      have fold : ∀ (regs : List RegDecl) (st : Step3 × BankAcc), (∀ r ∈ regs, r.width.ok ∧ wfEx r.default = true) →
+          NoPanic st.1.errors → NoPanic (regs.foldl (step3Register fl s1 constants b.name inP outP) st).1.errors := by
+        intro regs
+        induction regs with
+        | nil => intro st _ h; exact h
+        | cons r rest ih =>
+          intro st hr h
+          exact ih _ (fun x hx => hr x (List.mem_cons_of_mem _ hx))
+            (step3Register_np fl s1 constants b.name inP outP st r hc (hr r List.mem_cons_self) h)
+      apply fold b.regs _ hb
+      apply noPanic_append hs
+      apply noPanic_flatMap
+      intro n _
+      exact noPanic_ite _ _ _ (noPanic_single _ (by simp)) noPanic_nil
+  · exact noPanic_append hs (noPanic_single _ (by simp))
+
+theorem step3_np (hc : ConstOK constants) (hb : ∀ b ∈ s1.banksRaw, ∀ r ∈ b.regs, r.width.ok ∧ wfEx r.default = true) :
+    NoPanic (s1.banksRaw.foldl (step3Bank fl cls s1 constants) { wireTypes := s1.wireTypes }).errors := by
+  have fold : ∀ (banks : List BankDecl) (s : Step3), (∀ b ∈ banks, ∀ r ∈ b.regs, r.width.ok ∧ wfEx r.default = true) →
+      NoPanic s.errors → NoPanic (banks.foldl (step3Bank fl cls s1 constants) s).errors := by
+    intro banks
+    induction banks with
+    | nil => intro s _ h; exact h
+    | cons b rest ih =>
+      intro s hb h
+      exact ih _ (fun x hx => hb x (List.mem_cons_of_mem _ hx))
+        (step3Bank_np fl cls s1 constants s b hc (hb b List.mem_cons_self) h)
+  exact fold s1.banksRaw _ hb noPanic_nil
+end
+
+/-! ### `assignments_to_actions` -/
+
+section
+variable (fl : Flags) (widths : AMap Width) (constants : AMap WireValue) (assignments : AMap Ex) (known : List String)
+
+theorem preprocessOne_np (st : PreState) (f : FixedFunction)
+    (hin : ∀ n ∈ f.inWires.map (·.1), known.contains n = false)
+    (hout : ∀ n w, f.outWire = some (n, w) → known.contains n = false ∧ assignments.contains n = false)
+    (hs : NoPanic st.errors) : NoPanic (preprocessOne fl widths constants assignments known st f).errors := by
+  have hkc : (f.inWires.map (·.1)).any known.contains = false := by
+    rw [List.any_eq_false]
+    intro n hn
+    rw [hin n hn]; simp
+  have hunset : ∀ l : List String, NoPanic (l.map (fun n => (⟨.UnsetBuiltinWire, [n]⟩ : Diag))) := by
+    intro l d hd
+    obtain ⟨n, _, rfl⟩ := List.mem_map.mp hd
+    simp
+  unfold preprocessOne
+  simp only [hkc, Bool.false_eq_true, if_false]
+  generalize (f.inWires.map (·.1)).filter (fun n => !assignments.contains n) = missing
+  by_cases hA : (f.mandatory && !missing.isEmpty) = true
+  · simp only [hA, if_true]
+    cases ho : f.outWire with
+    | none => exact noPanic_append hs (hunset _)
+    | some ow =>
+      obtain ⟨out, w⟩ := ow
+      obtain ⟨h1, h2⟩ := hout out w ho
+      simp only [h1, h2, Bool.or_self, Bool.false_eq_true, if_false]
+      exact noPanic_append hs (hunset _)
+  · simp only [hA, Bool.false_eq_true, if_false]
+    by_cases hB : (!missing.isEmpty) = true
+    · simp only [hB, if_true]
+      apply noPanic_append
+      · apply noPanic_append hs
+        cases ho : f.outWire with
+        | none => exact noPanic_nil
+        | some ow =>
+          obtain ⟨out, w⟩ := ow
+          simp only
+          exact noPanic_ite _ _ _ (hunset _) noPanic_nil
+      · apply noPanic_ite
+        · apply noPanic_ite
+          · exact noPanic_single _ (by simp)
+          · exact noPanic_nil
+        · exact noPanic_nil
+    · simp only [hB, Bool.false_eq_true, if_false]
+      cases ho : f.outWire with
+      | none => exact hs
+      | some ow =>
+        obtain ⟨out, w⟩ := ow
+        obtain ⟨h1, h2⟩ := hout out w ho
+        simp only [h1, h2, Bool.or_self, Bool.false_eq_true, if_false]
+        exact hs
+end
+
+section
+variable (fl : Flags) (widths : AMap Width) (constants : AMap WireValue) (assignments : AMap Ex) (known : List String)
+  (declared : List String) (byOutput : AMap FixedFunction)
+
+theorem preprocess_fold_np (fixed : List FixedFunction)
+    (hin : ∀ f ∈ fixed, ∀ n ∈ f.inWires.map (·.1), known.contains n = false)
+    (hout : ∀ f ∈ fixed, ∀ n w, f.outWire = some (n, w) → known.contains n = false ∧ assignments.contains n = false) :
+    ∀ (st : PreState), NoPanic st.errors →
+      NoPanic (fixed.foldl (preprocessOne fl widths constants assignments known) st).errors := by
+  induction fixed with
+  | nil => intro st h; exact h
+  | cons f rest ih =>
+    intro st h
+    simp only [List.foldl_cons]
+    apply ih (fun g hg => hin g (List.mem_cons_of_mem _ hg)) (fun g hg => hout g (List.mem_cons_of_mem _ hg))
+    exact preprocessOne_np fl widths constants assignments known st f (hin f List.mem_cons_self) (hout f List.mem_cons_self) h
+
+/-- a turn of the loop in which the `assert!`s hold adds no internal error -/
+theorem loopStep_np (st : LoopState) (name : String)
+    (hrefs : ∀ e, assignments.get? name = some e → ∀ r ∈ refs e, r ∈ st.covered)
+    (hfix : ∀ f, assignments.get? name = none → byOutput.get? name = some f → ∀ i ∈ f.inWires.map (·.1), i ∈ st.covered)
+    (hs : NoPanic st.errors) :
+    NoPanic (loopStep fl assignments widths declared constants byOutput st name).errors ∧
+    ∀ n, n ∈ (loopStep fl assignments widths declared constants byOutput st name).covered ↔ n ∈ st.covered ∨ n = name := by
+  have hcov : ∀ n, n ∈ (loopStep fl assignments widths declared constants byOutput st name).covered ↔ n ∈ st.covered ∨ n = name := by
+    intro n
+    unfold loopStep
+    simp only
+    repeat' split
+    all_goals exact mem_setInsert _ _ _
+  refine ⟨?_, hcov⟩
+  unfold loopStep
+  cases h1 : assignments.get? name with
+  | some expr =>
+    have hall : (refs expr).all st.covered.contains = true := by
+      rw [List.all_eq_true]
+      intro r hr
+      simpa using hrefs expr h1 r hr
+    simp only [hall, if_true]
+    cases h2 : widths.get? name with
+    | none => exact noPanic_append hs (noPanic_single _ (by simp))
+    | some w =>
+      simp only
+      cases h3 : check fl widths.toCtx constants.toEnv expr with
+      | error ds => exact noPanic_append hs (check_np fl _ _ expr ds h3)
+      | ok ew =>
+        simp only
+        split
+        · exact hs
+        · exact noPanic_append hs (noPanic_single _ (by simp))
+  | none =>
+    simp only
+    cases h2 : byOutput.get? name with
+    | some f =>
+      have hall : (f.inWires.map (·.1)).all st.covered.contains = true := by
+        rw [List.all_eq_true]
+        intro i hi
+        simpa using hfix f h1 h2 i hi
+      simp only [hall, if_true]
+      exact hs
+    | none =>
+      simp only
+      split
+      · exact noPanic_append hs (noPanic_single _ (by simp))
+      · exact hs
+
+/-- the whole loop over a list in which every name's reads are known or earlier in the list -/
+theorem actionsLoop_np : ∀ (names : List String) (st : LoopState),
+    names.Nodup →
+    (∀ pre x post, names = pre ++ x :: post →
+      (∀ e, assignments.get? x = some e → ∀ r ∈ refs e, r ∈ st.covered ∨ r ∈ pre) ∧
+      (∀ f, assignments.get? x = none → byOutput.get? x = some f → ∀ i ∈ f.inWires.map (·.1), i ∈ st.covered ∨ i ∈ pre)) →
+    NoPanic st.errors →
+    NoPanic (actionsLoop fl assignments widths declared constants byOutput names st).errors
+  | [], st, _, _, hs => hs
+  | name :: rest, st, hnd, hord, hs => by
+    have hstep : actionsLoop fl assignments widths declared constants byOutput (name :: rest) st =
+        actionsLoop fl assignments widths declared constants byOutput rest
+          (loopStep fl assignments widths declared constants byOutput st name) := by
+      simp [actionsLoop]
+    rw [hstep]
+    obtain ⟨h0a, h0b⟩ := hord [] name rest rfl
+    obtain ⟨hnp, hcov⟩ := loopStep_np fl widths constants assignments declared byOutput st name
+      (fun e he r hr => by rcases h0a e he r hr with h | h; exact h; simp at h)
+      (fun f h1 h2 i hi => by rcases h0b f h1 h2 i hi with h | h; exact h; simp at h) hs
+    apply actionsLoop_np rest _ (List.nodup_cons.mp hnd).2 _ hnp
+    intro pre x post hsplit
+    obtain ⟨ha, hb⟩ := hord (name :: pre) x post (by rw [hsplit]; rfl)
+    constructor
+    · intro e he r hr
+      rcases ha e he r hr with h | h
+      · exact Or.inl ((hcov r).mpr (Or.inl h))
+      · rcases List.mem_cons.mp h with h2 | h2
+        · exact Or.inl ((hcov r).mpr (Or.inr h2))
+        · exact Or.inr h2
+    · intro f h1 h2 i hi
+      rcases hb f h1 h2 i hi with h | h
+      · exact Or.inl ((hcov i).mpr (Or.inl h))
+      · rcases List.mem_cons.mp h with h3 | h3
+        · exact Or.inl ((hcov i).mpr (Or.inr h3))
+        · exact Or.inr h3
+end
+
+theorem assignmentsToActions_np (fl : Flags) (o : Orders) (assignments : AMap Ex) (widths : AMap Width)
+    (known : List String) (fixed : List FixedFunction) (declared : List String) (constants : AMap WireValue)
+    (ho : OrdersOK o) (ht : FixedTableOK fixed) (hk : assignments.keys.Nodup)
+    (hin : ∀ f ∈ fixed, ∀ n ∈ f.inWires.map (·.1), known.contains n = false)
+    (hout : ∀ f ∈ fixed, ∀ n w, f.outWire = some (n, w) → known.contains n = false ∧ assignments.contains n = false)
+    (ds : List Diag) (h : assignmentsToActions fl o assignments widths known fixed declared constants = .error ds) :
+    NoPanic ds := by
+  unfold assignmentsToActions at h
+  simp only at h
+  obtain ⟨g0wf, g0nodes, g0edges⟩ := assignGraph_spec assignments known hk
+  generalize hg0 : assignGraph assignments known = g0 at h g0wf g0nodes g0edges
+  have hprenp := preprocess_fold_np fl widths constants assignments known fixed hin hout ({ graph := g0 } : PreState) noPanic_nil
+  generalize hpre : fixed.foldl (preprocessOne fl widths constants assignments known) { graph := g0 } = pre at h hprenp
+  by_cases hpe : pre.errors.isEmpty = true
+  · have hpe' : pre.errors = [] := by simpa using hpe
+    simp only [hpe, Bool.not_true, Bool.false_eq_true, if_false] at h
+    have hg0c : ∀ e ∈ g0.edges, assignments.contains e.2 = true := by
+      intro e he
+      obtain ⟨ex, hm, _⟩ := (g0edges e.1 e.2).mp he
+      exact (AMap.contains_iff_mem_keys _ _).mpr (List.mem_map.mpr ⟨(e.2, ex), hm, rfl⟩)
+    have hinit : PreFacts assignments known g0 [] ({ graph := g0 } : PreState) :=
+      { noOut := by intro f hf; simp at hf
+        byKeys := by simp [AMap.keys]
+        byOut := by intro n f hf; simp at hf
+        wf := g0wf
+        nodes := fun n hn => hn
+        edges := fun e he => Or.inl he
+        noOutSub := List.Sublist.refl _
+        edgesG0 := fun e he => he
+        edgesFixed := by intro n f hf; simp at hf }
+    have hpf := preprocess_fold_facts fl widths constants assignments known fixed ht g0 hg0c fixed [] _ (by simp) hinit
+      (by rw [hpre]; exact hpe')
+    rw [hpre] at hpf
+    rcases pre.graph.sort_spec o hpf.wf ho with ⟨order, hso, hond, _, hordered⟩ | ⟨c, hsc, _⟩
+    · rw [hso] at h
+      simp only at h
+      -- the loop
+      have hloop : NoPanic (actionsLoop fl assignments widths declared constants pre.info.byOutput order { covered := known }).errors := by
+        apply actionsLoop_np fl widths constants assignments declared pre.info.byOutput order _ hond _ noPanic_nil
+        intro pfx x post hsplit
+        constructor
+        · intro e he r hr
+          by_cases hkn : known.contains r = true
+          · left; simpa using hkn
+          · right
+            have hkn' : known.contains r = false := by simpa using hkn
+            have hedge : (r, x) ∈ g0.edges := (g0edges r x).mpr ⟨e, AMap.mem_of_get? _ _ _ he, hr, hkn'⟩
+            exact hordered pfx x post hsplit r (hpf.edgesG0 _ hedge)
+        · intro f _ h2 i hi
+          right
+          exact hordered pfx x post hsplit i (hpf.edgesFixed x f (AMap.mem_of_get? _ _ _ h2) i hi)
+      generalize actionsLoop fl assignments widths declared constants pre.info.byOutput order { covered := known } = st at h hloop
+      split at h
+      · simp at h
+      · simp only [Except.error.injEq] at h
+        rw [← h]
+        apply noPanic_append hloop
+        intro d hd
+        obtain ⟨n, _, rfl⟩ := List.mem_map.mp hd
+        simp
+    · rw [hsc] at h
+      simp only [Except.error.injEq] at h
+      rw [← h]
+      exact noPanic_single _ (by simp)
+  · simp only [hpe] at h
+    simp only [Bool.not_false, if_true, Except.error.injEq] at h
+    rw [← h]; exact hprenp
+
+/-- a built-in output that is assigned to is reported in step 1 -/
+def OutsFree (FO : List String) (s : Step1) : Prop := s.errors = [] → ∀ n ∈ FO, s.assignments.contains n = false
+
+theorem step1_outsFree (FN FO : List String) (stmts : List Stmt) (s : Step1) (h : OutsFree FO s) :
+    OutsFree FO (stmts.foldl (step1Stmt FN FO) s) := by
+  have hstep : ∀ s st, True → OutsFree FO s →
+      OutsFree FO (step1Stmt FN FO s st) ∧ ((step1Stmt FN FO s st).errors = [] → s.errors = []) := by
+    intro s st _ hs
+    cases st with
+    | consts ds =>
+      apply fold_inv (OutsFree FO) (step1Const FN) (fun _ => True) _ ds s (fun _ _ => trivial) hs
+      intro s d _ hs
+      have hback : (step1Const FN s d).errors = [] → s.errors = [] := fun he => (checkDoubleDeclare_errors FN s d.name he).1
+      exact ⟨fun he n hn => hs (hback he) n hn, hback⟩
+    | wires ds =>
+      apply fold_inv (OutsFree FO) (step1Wire FN) (fun _ => True) _ ds s (fun _ _ => trivial) hs
+      intro s d _ hs
+      have hback : (step1Wire FN s d).errors = [] → s.errors = [] := fun he => (checkDoubleDeclare_errors FN s d.name he).1
+      exact ⟨fun he n hn => hs (hback he) n hn, hback⟩
+    | assigns as =>
+      apply fold_inv (OutsFree FO) (step1Assign FO) (fun _ => True) _ as s (fun _ _ => trivial) hs
+      intro s a _ hs
+      apply fold_inv (OutsFree FO) (step1Name FO a.value) (fun _ => True) _ a.names s (fun _ _ => trivial) hs
+      intro s name _ hs
+      have hback : (step1Name FO a.value s name).errors = [] → s.errors = [] ∧ FO.contains name = false := by
+        unfold step1Name
+        simp only
+        intro he
+        rw [List.append_eq_nil_iff] at he
+        refine ⟨he.1, ?_⟩
+        have h2 := he.2
+        by_cases hc : FO.contains name = true
+        · exfalso
+          split at h2
+          · simp at h2
+          · simp [hc] at h2
+        · simpa using hc
+      refine ⟨?_, fun he => (hback he).1⟩
+      intro he n hn
+      obtain ⟨h1, h2⟩ := hback he
+      have hne : n ≠ name := by
+        intro e; subst e
+        have : FO.contains n = true := by simpa using hn
+        rw [this] at h2; cases h2
+      show (s.assignments.insert name a.value).contains n = false
+      rw [AMap.contains_insert, hs h1 n hn]
+      simpa using hne
+    | bank b => exact ⟨hs, fun he => he⟩
+  exact (fold_inv (OutsFree FO) (step1Stmt FN FO) (fun _ => True) hstep stmts s (fun _ _ => trivial) h).1
+
+/-- **`Program::new` never reports an internal error**: for every well-formed statement list, every flag set,
+    every classification of bank letters and every iteration order, whatever diagnostics the model returns, none
+    is the `InternalPanic` that stands for an `assert!`, `unwrap()` or `panic!` of the real code. -/
+theorem Program_new_np (fl : Flags) (cls : CharClass) (o : Orders) (stmts : List Stmt)
+    (ho : OrdersOK o) (hwf : StmtsWF stmts) (ds : List Diag)
+    (h : Program.new fl cls o y86FixedFunctions stmts = .error ds) : NoPanic ds := by
+  unfold Program.new at h
+  simp only at h
+  generalize hs1 : List.foldl (step1Stmt _ _) (step1Init y86FixedFunctions) stmts = s1 at h
+  have hs1' : stmts.foldl (step1Stmt (fixedNamesOf y86FixedFunctions)
+      (y86FixedFunctions.filterMap fun f => f.outWire.map (·.1))) (step1Init y86FixedFunctions) = s1 := hs1
+  obtain ⟨s1inv, _⟩ := step1_fold_inv (fixedNamesOf y86FixedFunctions)
+    (y86FixedFunctions.filterMap fun f => f.outWire.map (·.1)) y86W0 stmts (step1Init y86FixedFunctions) hwf step1Init_inv
+  have hs1np := step1_fold_np (fixedNamesOf y86FixedFunctions)
+    (y86FixedFunctions.filterMap fun f => f.outWire.map (·.1)) stmts (step1Init y86FixedFunctions)
+    (by rw [step1Init_clean]; exact noPanic_nil)
+  rw [hs1'] at s1inv hs1np
+  split at h
+  · -- errors of step 1
+    simp only [Except.error.injEq] at h
+    rw [← h]
+    apply noPanic_append
+    · apply noPanic_append hs1np
+      apply noPanic_flatMap
+      intro n _
+      exact noPanic_ite _ _ _ (noPanic_single _ (by simp)) noPanic_nil
+    · unfold constRefErrors
+      apply noPanic_flatMap
+      intro p _
+      apply noPanic_flatMap
+      intro n _
+      dsimp only
+      repeat' (first
+        | apply noPanic_ite
+        | exact noPanic_nil
+        | exact noPanic_replicate _ _ (by simp))
+  · rename_i herrs1
+    simp only [Bool.not_eq_true', List.isEmpty_eq_false_iff, ne_eq, Decidable.not_not, List.append_eq_nil_iff] at herrs1
+    have hs1clean : s1.errors = [] := herrs1.1.1
+    -- every name a constant reads is a constant
+    have hrefs : ∀ p ∈ s1.constantsRaw, ∀ r ∈ refs p.2, s1.constantsRaw.contains r = true := by
+      intro p hp r hr
+      have hce := herrs1.2
+      unfold constRefErrors at hce
+      by_cases hc : s1.constantsRaw.contains r = true
+      · exact hc
+      · exfalso
+        have hc' : s1.constantsRaw.contains r = false := by simpa using hc
+        have hocc : 0 < occurrences p.2 r := by
+          unfold occurrences
+          exact List.count_pos_iff.mpr hr
+        have hmem : ∃ d, d ∈ (s1.constantsRaw.flatMap fun (p : String × Ex) =>
+            (dedupS (refs p.2)).flatMap fun inName =>
+              let isConstant := s1.constantsRaw.contains inName
+              if s1.wires.contains inName && !isConstant then
+                List.replicate (occurrences p.2 inName) (⟨.NonConstantWireRead, [inName]⟩ : Diag)
+              else if !isConstant then
+                List.replicate (occurrences p.2 inName) ⟨.UndeclaredWireRead, [inName]⟩
+              else []) := by
+          by_cases hw : s1.wires.contains r = true
+          · refine ⟨⟨.NonConstantWireRead, [r]⟩, ?_⟩
+            refine List.mem_flatMap.mpr ⟨p, hp, List.mem_flatMap.mpr ⟨r, (mem_dedupS _ _).mpr hr, ?_⟩⟩
+            simp only [hw, hc', Bool.not_false, Bool.and_self, if_true]
+            exact List.mem_replicate.mpr ⟨by omega, rfl⟩
+          · have hw' : s1.wires.contains r = false := by simpa using hw
+            refine ⟨⟨.UndeclaredWireRead, [r]⟩, ?_⟩
+            refine List.mem_flatMap.mpr ⟨p, hp, List.mem_flatMap.mpr ⟨r, (mem_dedupS _ _).mpr hr, ?_⟩⟩
+            simp only [hw', hc', Bool.false_and, Bool.false_eq_true, if_false, Bool.not_false, if_true]
+            exact List.mem_replicate.mpr ⟨by omega, rfl⟩
+        obtain ⟨d, hd⟩ := hmem
+        rw [hce] at hd
+        simp at hd
+    obtain ⟨hc_np, hc_all⟩ := resolveConstants_np fl o s1.constantsRaw ho s1inv.cKeys s1inv.cWf hrefs
+    split at h
+    · rename_i dsc hconst
+      simp only [Except.error.injEq] at h
+      rw [← h]; exact hc_np _ hconst
+    · rename_i constants hconst
+      have hcok := resolveConstants_constOK fl o s1.constantsRaw constants s1inv.cWf hconst
+      have hckeys := resolveConstants_keys fl o s1.constantsRaw constants hconst
+      have hs3np := step3_np fl cls s1 constants hcok s1inv.banks
+      generalize hs3 : s1.banksRaw.foldl (step3Bank fl cls s1 constants) { wireTypes := s1.wireTypes } = s3 at h hs3np
+      split at h
+      · -- errors of step 3 and step 4
+        simp only [Except.error.injEq] at h
+        rw [← h]
+        apply noPanic_append hs3np
+        apply noPanic_flatMap
+        intro n _
+        repeat' (first
+          | apply noPanic_ite
+          | exact noPanic_nil
+          | exact noPanic_single _ (by simp))
+      · rename_i herrs3
+        have hs3clean : s3.errors = [] := by
+          simp only [Bool.not_eq_true', List.isEmpty_eq_false_iff, ne_eq, Decidable.not_not, List.append_eq_nil_iff] at herrs3
+          exact herrs3.1
+        have hs3f : S3Facts s1.declared (fun n => s1.assignments.contains n = false) s3 {} := by
+          rw [← hs3]
+          exact step3_facts fl cls s1 constants (fun b hb r hr => (s1inv.banks b hb r hr).1) (by rw [hs3]; exact hs3clean)
+        split at h
+        · -- a constant without a value: impossible
+          rename_i hmiss
+          exfalso
+          rw [List.any_eq_true] at hmiss
+          obtain ⟨k, hk, hk2⟩ := hmiss
+          have := hc_all constants hconst k hk
+          rw [this] at hk2; simp at hk2
+        · have hyp : TablesHyp (fixedNamesOf y86FixedFunctions) y86W0 s1 constants s3 :=
+            { s1inv := s1inv, s1clean := hs1clean, cok := hcok, ckeys := hckeys, s3f := hs3f
+              fnShape := by
+                intro n hn
+                have a := List.all_eq_true.mp y86_names_not_sig n hn
+                have b := List.all_eq_true.mp y86_names_not_ctl n hn
+                exact ⟨by simpa using a, by simpa using b⟩ }
+          generalize hknown : ((constPairs s1.constantsRaw.keys constants).map (·.1)).foldl setInsert
+            ((bankOuts s3.banks).foldl setInsert []) = known at h
+          have hknownmem : ∀ n, n ∈ known → n ∈ bankOuts s3.banks ∨ n ∈ (constPairs s1.constantsRaw.keys constants).map (·.1) := by
+            intro n hn
+            rw [← hknown, mem_foldl_setInsert, mem_foldl_setInsert] at hn
+            rcases hn with (h1 | h1) | h1
+            · simp at h1
+            · exact Or.inl h1
+            · exact Or.inr h1
+          -- a built-in name is never a known value
+          have hfixedNotKnown : ∀ n ∈ fixedNamesOf y86FixedFunctions, known.contains n = false := by
+            intro n hn
+            by_cases hc : known.contains n = true
+            · exfalso
+              have hm : n ∈ known := by simpa using hc
+              rcases hknownmem n hm with h1 | h1
+              · simp only [bankOuts, List.mem_flatMap, List.mem_map] at h1
+                obtain ⟨b, hb, sg, hsg, rfl⟩ := h1
+                have := isSigName_second ((hs3f.banks b hb).sigs.sig sg hsg).2.1
+                rw [(hyp.fnShape _ hn).1] at this; cases this
+              · obtain ⟨pr, hpr, rfl⟩ := List.mem_map.mp h1
+                exact (constPairs_declared hyp pr hpr).2.1 hn
+            · simpa using hc
+          split at h
+          · rename_i dsa hact
+            simp only [Except.error.injEq] at h
+            rw [← h]
+            apply assignmentsToActions_np fl o s1.assignments _ known y86FixedFunctions s1.declared constants ho
+              y86Fixed_table s1inv.aKeys _ _ dsa hact
+            · intro f hf n hn
+              apply hfixedNotKnown
+              unfold fixedNamesOf
+              rw [mem_dedupS]
+              exact List.mem_flatMap.mpr ⟨f, hf, List.mem_append_left _ hn⟩
+            · intro f hf n w hout
+              have hn : n ∈ fixedNamesOf y86FixedFunctions := by
+                have := List.all_eq_true.mp y86_out_in_names f hf
+                rw [hout] at this
+                simpa using this
+              refine ⟨hfixedNotKnown n hn, ?_⟩
+              -- an assigned built-in output is reported in step 1
+              have hfree := step1_outsFree (fixedNamesOf y86FixedFunctions)
+                (y86FixedFunctions.filterMap fun f => f.outWire.map (·.1)) stmts (step1Init y86FixedFunctions)
+                (by intro _ m _; have : (step1Init y86FixedFunctions).assignments = [] := by decide +kernel
+                    rw [this]; simp [AMap.contains])
+              rw [hs1'] at hfree
+              exact hfree hs1clean n (List.mem_filterMap.mpr ⟨f, hf, by simp [hout]⟩)
+          · simp at h
